@@ -8,7 +8,9 @@ LEVEL = "model_checking"
 def corrupt(rec):
     r = json.loads(json.dumps(rec))
     r["id"] = -1
-    if r["real"]:
+    if r["real"] and r["real"][0][1] >= 0x10FFFF:
+        r["real"][0][1] -= 1   # the last rune is no longer a member
+    elif r["real"]:
         r["real"][0][1] += 1   # one extra member at the end of the first range
     else:
         r["real"] = [[65, 65]]
